@@ -5,6 +5,7 @@ import (
 	"go/types"
 	"io"
 	"sort"
+	"strings"
 
 	"golang.org/x/tools/go/ssa"
 )
@@ -282,4 +283,24 @@ func (e *Engine) FrameInts(st *State, fr *Frame) []Lin {
 		out[i] = x.l
 	}
 	return out
+}
+
+// CellKeys lists the field names of obj that have a cell in st (sorted).
+func (e *Engine) CellKeys(st *State, obj PtrV) []string {
+	var out []string
+	pre := obj.Key + "."
+	for k := range st.cells {
+		if strings.HasPrefix(k, pre) {
+			out = append(out, k[len(pre):])
+		}
+	}
+	sort.Strings(out)
+	return out
+}
+
+// PendingRet returns the return value being merged when the results of
+// activation fr are joined (only meaningful inside a Templates hook).
+func (e *Engine) PendingRet(joined *State, fr *Frame) (AVal, bool) {
+	v, ok := joined.vals[vkey{-fr.id, nil}]
+	return v, ok && v != nil
 }
